@@ -452,7 +452,11 @@ fn run_shard<C: Campaign>(
             Err(f) => {
                 // In a probe campaign, failures that match the probed known finding do not
                 // stop the campaign (they are counted); anything else does.
-                if is_probe && !shrinking && known::matches_any(&probes, &f.signature) {
+                if is_probe
+                    && !shrinking
+                    && known::matches_any(&probes, &f.signature)
+                    && known.find(property, &f.signature).is_some()
+                {
                     let mut a = acc.borrow_mut();
                     *a.counters.entry("known_finding_hits".into()).or_insert(0) += 1;
                     *a.counters
@@ -499,7 +503,6 @@ fn run_shard<C: Campaign>(
             a.notes.push(format!("campaign aborted: {reason}"));
         }
     }
-    let _ = known;
     a
 }
 
